@@ -413,11 +413,26 @@ class DeepCopy(Contract):
         assume_spec_shape(c.eng, st, c.self)
         st.assume(is_spec(c.eng, st, c.self))
         self.defs = slot_defs(c.eng, st, st, c.self)
+        # A-MEMO: the memo of a copy operation is None or a dict private to that operation (no attribute value of the instance)
+        memo = c.eng.to_val(st, c.memo)
+        c.eng.stats["assumed"].add("A-MEMO")
+        s = z3.Int("s!memo")
+        st.assume(z3.Or(is_none(memo), z3.And(is_ref(memo), st.get("cls_of", a_of(memo)) == cid("dict"), a_of(memo) >= 1000,
+                                               a_of(memo) < st.alloc, memo != c.self)))
+        st.assume(z3.ForAll([s], z3.Select(st.get("idict", a_of(c.self)), s) != memo))
+
+    def modifies(self, c):
+        memo = c.eng.to_val(c.pre, c.memo)
+        return [(a_of(memo), is_ref(memo))]
 
     def post(self, c):
         eng, st, v = c.eng, c.pre, c.self
         dn = dnc_class(eng, st, v)
-        return [("c02.dnc-class", z3.Implies(dn, c.res == v)),
+        memo = eng.to_val(st, c.memo)
+        key = kn(vint(ID_OF(v)))
+        return [("c10.memo-registered", z3.Implies(z3.And(z3.Not(dn), is_ref(memo)), z3.And(
+                    z3.Select(c.post.get("dhas", a_of(memo)), key), z3.Select(c.post.get("dval", a_of(memo)), key) == c.res))),
+                ("c02.dnc-class", z3.Implies(dn, c.res == v)),
                 ("c02.fresh", z3.Implies(z3.Not(dn), z3.And(is_ref(c.res), a_of(c.res) >= st.alloc,
                                                           c.post.get("cls_of", a_of(c.res)) == st.get("cls_of", a_of(v))))),
                 ("c02.slots", z3.Implies(z3.Not(dn), spec_copy_slots(eng, c.post, st, c.post, c.res, v,
